@@ -30,10 +30,24 @@ def run(ctx):
     book_fns = m.lib_fns("bourse_book")
     memo = {}
 
-    def grid_ok(q, e, guards, depth=0):
-        """-> reason string if expression e is on the tick grid at a site controlled by `guards`"""
+    def grid_ok(q, e, guards, depth=0, blk=None):
+        """-> reason string if expression e is on the tick grid at a site (block `blk`) controlled by `guards`"""
         if depth > 6:
             return None
+        # the payload of an Option parameter: under {it is Some, payload % tick != 0} the site must be unreachable
+        # (case analysis: the check may be an early return, a match-arm guard, a helper with `?` ...)
+        if blk is not None and e[0] == "field" and e[2] == "0" and e[1][0] == "downcast" and e[1][2] == "Some" and e[1][1][0] == "param":
+            from analysis.cases import CaseEval
+            p_ = e[1][1]
+
+            def dec(a):
+                if a[0] == "cmp" and a[1] in ("eq", "ne") and a[2][0] == "bin" and a[2][1] == "Rem" and a[3][0] == "const" and a[3][3] == 0 \
+                        and fld(a[2][3], m.f_tick) and same(a[2][2], e):
+                    return a[1] == "ne"
+                return None
+            ce = CaseEval(q, {p_: "Some"}, [dec])
+            if not ce.reachable(blk):
+                return "unreachable when `%s %% tick_size != 0`" % render(e)
         if e[0] == "const" and (e[3] == 0 or e[3] == 0xFFFFFFFF):
             return "market sentinel"
         if e[0] == "field" and e[2] == "price" and (len(e) < 4 or e[3].endswith("Order")):
@@ -42,7 +56,7 @@ def run(ctx):
         from analysis.beta import normalize
         n = normalize(m.w, e)
         if n != e and n[0] == "phi":
-            rs = [grid_ok(q, a, guards, depth + 1) for a in n[1]]
+            rs = [grid_ok(q, a, guards, depth + 1, blk) for a in n[1]]
             if all(rs):
                 return "each alternative on-grid (%s)" % "; ".join(sorted(set(rs)))
         expanded = list(guards)
@@ -72,7 +86,7 @@ def run(ctx):
             for gq, c in sites:
                 if e[1] - 1 >= len(c.args):
                     return None
-                r = grid_ok(gq, c.args[e[1] - 1], c.rguards, depth + 1)
+                r = grid_ok(gq, c.args[e[1] - 1], c.rguards, depth + 1, c.b)
                 if r is None:
                     memo[key] = None
                     return None
@@ -80,7 +94,7 @@ def run(ctx):
             memo[key] = "every call site passes an on-grid value (%s)" % "; ".join(sorted(set(reasons)))
             return memo[key]
         if e[0] == "phi":
-            rs = [grid_ok(q, a, guards, depth + 1) for a in e[1]]
+            rs = [grid_ok(q, a, guards, depth + 1, blk) for a in e[1]]
             if all(rs):
                 return "all alternatives on-grid"
         return None
@@ -91,19 +105,25 @@ def run(ctx):
     ctor_helpers = {f.path for f in ctx.prog.find(crate="bourse_book", adt="Order") if "-> bourse_book::types::Order" in f.sig and f.impl_trait is None and not f.pub}
     n = 0
     covered = set()
+    deferred_ctor_sites = []
     for f in m.book_pub_fns():
         q = m.qi(f)
         covered |= set(q.fn.inlined_from) | {f.path}
         for w in q.writes(field="price", owner="Order"):
             n += 1
-            r = grid_ok(q, w.val, q.cfg.guards_refined(w.b))
+            r = grid_ok(q, w.val, q.cfg.guards_refined(w.b), 0, w.b)
             ctx.check(r is not None, "grid", "%s|price" % f.short(), w.loc(), "via %s: Order.price := %s is on the tick grid: %s" % (f.name, render(w.val), r),
                       "via %s: Order.price := %s with no tick-size check on some path from the public API (off-grid price can rest in the book)" % (f.name, render(w.val)))
         for c in q.calls():
             if c.target is not None and c.target in ctors and "price" in c.formals:
                 n += 1
                 a = c.arg_named("price")
-                r = grid_ok(q, a, c.rguards)
+                r = grid_ok(q, a, c.rguards, 0, c.b)
+                if r is None and f.name == "create_order":
+                    # the constructed order is only a value until it is stored: `create` (below) shows that with an
+                    # off-grid limit price no effect site of create_order is reachable
+                    r = "not stored when off-grid (creation case analysis, rule `create|reject-no-effect`)"
+                    deferred_ctor_sites.append(c)
                 ctx.check(r is not None, "grid", "%s|ctor|%s" % (f.short(), c.name), c.loc(), "via %s: %s(price = %s) on the tick grid: %s" % (f.name, c.name, render(a), r),
                           "via %s: %s called with price %s that is not checked against the tick size" % (f.name, c.name, render(a)))
         # Order literals built directly inside the (inlined) entry – e.g. through a private shared initialiser
@@ -141,34 +161,81 @@ def run(ctx):
     create = m.book_fn("create_order")
     cq = m.qi(create)
     create = cq.fn
-    def is_rem(a, op):
-        return a[0] == "cmp" and a[1] == op and a[3][0] == "const" and a[3][3] == 0 and a[2][0] == "bin" and a[2][1] == "Rem" and fld(a[2][3], m.f_tick)
-    off_edges = cq.cfg.edges_with(lambda a: is_rem(a, "ne"))
-    on_edges = cq.cfg.edges_with(lambda a: is_rem(a, "eq"))
-    ctx.check(bool(off_edges) and bool(on_edges), "create", "guards", ctx.loc(create),
-              "create_order tests `price %% tick_size` (%d off-grid / %d on-grid branch edges)" % (len(off_edges), len(on_edges)), "create_order has no remainder test of the price against the tick size")
-    # under the assumptions {price is Some, price % tick_size != 0}: nothing is written and every return is an error
-    none_edges = cq.cfg.edges_with(lambda a: a[0] == "variant" and a[2] == ("None",) and a[1][0] == "param" and a[1][2] == "price")
+    # finite case analysis on the shape of `price` and on "limit price on the grid" (analysis/cases.py): the check may sit
+    # in each limit arm, be hoisted in front of the match, live in a private helper called with `?`, or test the price of
+    # the already constructed (not yet stored) order - what matters is what each case can reach
+    from analysis.cases import CaseEval, payload
+    from analysis.origin import strip
+    price_p = ("param", create.params.index("price") + 1, "price") if "price" in create.params else None
+    if price_p is None:
+        ctx.lost("create", "create_order has no `price` parameter")
+        return
+
+    def ctor_price(e):
+        """`<ctor call>.price` -> the ctor's price argument / its market sentinel; other expressions unchanged"""
+        if e[0] == "field" and e[2] == "price" and e[1][0] == "call":
+            c = e[1]
+            tf = ctx.prog.fn_by_short(c[1]) if hasattr(ctx.prog, "fn_by_short") else None
+            for g in ctors:
+                if g.name == c[4]:
+                    tf = g
+            if tf is not None:
+                if "price" in tf.params:
+                    return c[2][tf.params.index("price")]
+                r = m.qi(tf).ret()
+                if r[0] == "agg":
+                    return dict(zip(r[4], r[3])).get("price", e)
+        return e
+
+    def price_alts(e):
+        if e[0] == "field" and e[2] == "price" and e[1][0] == "phi":
+            return [ctor_price(("field", a, "price", e[3] if len(e) > 3 else "")) for a in e[1][1]]
+        return [ctor_price(e)]
+
+    def is_limit_price(e):
+        alts = price_alts(e)
+        return any(same(a, payload(price_p)) for a in alts) and all(same(a, payload(price_p)) or (a[0] == "const" and (a[3] == 0 or is_max_u32(a))) for a in alts)
+
+    def decide(grid):
+        def d(a):
+            if a[0] == "cmp" and a[1] in ("eq", "ne") and a[2][0] == "bin" and a[2][1] == "Rem" and a[3][0] == "const" and a[3][3] == 0 \
+                    and fld(a[2][3], m.f_tick) and is_limit_price(a[2][2]):
+                if grid is None:
+                    return None
+                return grid if a[1] == "eq" else (not grid)
+            return None
+        return d
+    n_tests = len(cq.cfg.edges_with(lambda a: decide(True)(a) is not None))
+    ctx.check(n_tests >= 2, "create", "guards", ctx.loc(create), "create_order tests `limit price %% tick_size` (%d branch edges)" % n_tests,
+              "create_order has no remainder test of the limit price against the book's tick size")
     summ = m.w.effects.summary(create)
-    for side in ("Bid", "Ask"):
-        other = "Ask" if side == "Bid" else "Bid"
-        side_edges = cq.cfg.edges_with(lambda a: a[0] == "variant" and a[2] == (other,) and a[1][0] == "param" and a[1][2] == "side")
-        reach, _cuts = cq.cfg.reach_under(set(on_edges) | set(none_edges) | set(side_edges))
-        eff = [(repr(loc), what, sp["line"]) for (loc, blk, sp, what) in summ["sites"] if blk in reach and loc.root[0] == "param"]
-        ctx.check(not eff, "create", "reject-no-effect|" + side, ctx.loc(create),
-                  "an off-grid %s limit price writes nothing (no id consumed): no effect site is reachable under {price is Some, price %% tick != 0}" % side,
-                  "with an off-grid %s price create_order still writes: %s" % (side, eff))
-        rets = [rb for rb in create.body.return_blocks() if rb in reach]
-        from analysis.origin import strip
-        vals = [strip(cq.ev.local_val(0, cq.ev.term_at(rb))) for rb in rets]
-        ok_built = False
+    pushes = [c for c in cq.calls("push") if fld(c.args[0], m.f_orders)]
+
+    def ok_built(reach):
         for blk in create.body.blocks:
             if blk.i in reach and not blk.cleanup:
                 for st in blk.stmts:
                     if st.k == "assign" and st.rv.k == "agg" and st.rv.j.get("variant") == "Ok" and st.rv.j.get("adt", "").endswith("Result") and "usize" in st.place.ty:
-                        ok_built = True
-        ctx.check(bool(rets) and not ok_built and reach_errs(cq, reach), "create", "reject-returns|" + side, ctx.loc(create), "an off-grid %s limit price returns an error (no Ok(id) is built on those paths)" % side,
-                  "with an off-grid %s price create_order may return %s" % (side, [render(v)[:60] for v in vals]))
+                        return True
+        return False
+    # (A) limit price off the grid: nothing is written, no Ok(id) is built, an error is returned
+    ce = CaseEval(cq, {price_p: "Some"}, [decide(False)])
+    ce.compute()
+    eff = [(repr(loc), what, sp["line"]) for (loc, blk, sp, what) in summ["sites"] if blk in ce.reach and loc.root[0] == "param"]
+    ctx.check(not eff, "create", "reject-no-effect", ctx.loc(create),
+              "an off-grid limit price writes nothing (no id consumed): no effect site is reachable under {price is Some, price %% tick != 0}",
+              "with an off-grid limit price create_order still writes: %s" % eff)
+    rets = [rb for rb in create.body.return_blocks() if rb in ce.reach]
+    ctx.check(bool(rets) and not ok_built(ce.reach) and reach_errs(cq, ce.reach), "create", "reject-returns", ctx.loc(create),
+              "an off-grid limit price returns an error (no Ok(id) is built on those paths)", "with an off-grid limit price create_order may return Ok")
+    # (B) limit price on the grid, (C) market order: the order is always created (the `if and only if` / `market orders always can`)
+    for tag, opts, dec, what in (("on-grid", {price_p: "Some"}, decide(True), "an on-grid limit price"), ("market", {price_p: "None"}, decide(None), "a market order (no price)")):
+        ce = CaseEval(cq, opts, [dec])
+        ce.compute()
+        created = len(pushes) == 1 and ce.must_run([pushes[0].b])
+        errs = reach_errs(cq, ce.reach)
+        ctx.check(created and not errs, "create", "accepts|" + tag, ctx.loc(create), "%s is always accepted: the entry is stored on every path and no error can be returned" % what,
+                  "%s can be rejected / not stored (%s)" % (what, "an Err value is built on a reachable path" if errs else "the order-table push can be skipped"))
     ret = cq.ret()
     has_ok = any(x[0] == "agg" and x[2].endswith("Result::Ok") for x in walk(ret))
     ctx.check(has_ok, "create", "result", ctx.loc(create), "create_order returns Ok(id) on the accepting paths")
